@@ -89,6 +89,7 @@ class Repo:
         self.consulted = set()
         self._load()
         self._resolve_bases()
+        self._resolve_method_aliases()
         if os.environ.get('RSX_NO_INLINE') != '1':
             self._inline_helpers()
 
@@ -158,6 +159,18 @@ class Repo:
                         r = self.resolve_name(mod.name, b.id)
                         if isinstance(r, ClassInfo):
                             ci.bases.append(r)
+
+    def _resolve_method_aliases(self):
+        """`__mul__ = DecRule.__mul__` in a class body: the other class's function under this name"""
+        for mod in self.modules.values():
+            for ci in mod.classes.values():
+                for k, v in ci.class_attrs.items():
+                    if isinstance(v, ast.Attribute) and isinstance(v.value, ast.Name) and k not in ci.methods:
+                        r = self.resolve_name(mod.name, v.value.id)
+                        if isinstance(r, ClassInfo):
+                            m = self.resolve_method(r, v.attr)
+                            if m is not None:
+                                ci.methods[k] = m
 
     def _inline_helpers(self):
         """Replace calls to private helpers by their bodies (see rsx/inline.py) and mark helpers
